@@ -323,6 +323,7 @@ impl Model {
         e.rmw.push((al.block, il.size(), Rmw::Sub, 1));
         al.owners -= 1;
         if al.owners == 0 {
+            e.rmw_optional.push(e.rmw.len() - 1);
             e.drops.push((1, al.id));
             e.events.push(ExpEv::Dealloc { addr: al.block, size: il.size(), align: il.align() });
             self.slots[a] = None;
